@@ -134,7 +134,9 @@ def a_elem(rng, depth, opts):
     if r < 0.80:
         return {'k': 'str'}
     if depth < 3:
-        if rng.random() < 0.3:
+        # barectf 3 has no dynamic array inside an array ("Nested structure and dynamic array field types
+        # are not supported"): such barectf 2 documents have no twin; drawn only when asked for
+        if opts.get('nested_dynamic') and rng.random() < 0.3:
             return {'k': 'darray', 'elem': a_elem(rng, depth + 1, opts)}
         return {'k': 'sarray', 'len': rng.choice([0, 1, 1, 2, 3, 5]), 'elem': a_elem(rng, depth + 1, opts)}
     return a_int(rng)
@@ -294,7 +296,7 @@ def gen_abs(rng, opts=None):
     if rng.random() < 0.7:
         ph['magic'] = a_uint_feature(rng, [32])
     if cfg['uuid'] is not None and rng.random() < 0.6:
-        ph['uuid'] = {'k': 'uuid', 'align': rng.choice([None, 1, 2, 4, 8, 8])}
+        ph['uuid'] = {'k': 'uuid', 'align': rng.choice([None, 8, 8] + ([1, 2, 4] if opts.get('uuid_small_align') else []))}
     if nstreams > 1 or rng.random() < 0.5:
         ph['stream_id'] = a_uint_feature(rng, [8, 16, 32, 64, 4, 2] if nstreams <= 4 else [8])
     cfg['ph'] = ph if (ph or rng.random() < 0.5) else None
@@ -309,28 +311,24 @@ def gen_abs(rng, opts=None):
 
 class Pres:
     """Decides, the same way for both printers, WHERE a type is written through an alias, a standard
-    alias of stdint/stdfloat, or inheritance.  Decisions are drawn once and replayed by position."""
+    alias of stdint/stdfloat, or inheritance.  A decision is keyed by the abstract node it is about,
+    drawn the first time it is asked and replayed for the other dialect."""
 
     def __init__(self, rng, cfg):
         self.rng = rng
         self.cfg = cfg
-        self.log = []
-        self.pos = 0
-        self.replay = False
+        self.table = {}
         self.counts = collections.Counter()
+        self.counting = True
 
-    def choose(self, options):
-        if self.replay:
-            c = self.log[self.pos]
-            self.pos += 1
-            return c
-        c = self.rng.choice(options)
-        self.log.append(c)
-        return c
+    def choose(self, key, options):
+        if key not in self.table:
+            self.table[key] = self.rng.choice(options)
+        return self.table[key]
 
-    def rewind(self):
-        self.replay = True
-        self.pos = 0
+    def count(self, what):
+        if self.counting:
+            self.counts[what] += 1
 
 
 def same_ft(a, b):
@@ -440,7 +438,10 @@ class Printer:
             return OD([('class', 'dynamic-array'), ('element-field-type', self.ft(ft['elem']))])
         if k == 'uuid':
             el = {'k': 'int', 'size': 8, 'signed': False, 'align': ft['align'], 'base': None}
-            return self.ft({'k': 'sarray', 'len': 16, 'elem': el}, allow_alias=False) if True else None
+            el_node = self.int_node(el)
+            if self.v2:
+                return OD([('class', 'array'), ('length', 16), ('element-type', el_node)])
+            return OD([('class', 'static-array'), ('length', 16), ('element-field-type', el_node)])
         if k == 'struct':
             return self.struct(ft['min_align'], ft['fields'])
         raise AssertionError(k)
@@ -453,13 +454,13 @@ class Printer:
             f = OD(pre or [])
             for name, ft in fields:
                 f[name] = self.ft(ft)
-            if f or self.pres.choose([True, False]):
+            if f or self.pres.choose(('empty', id(fields)), [True, False]):
                 n['fields'] = f
         else:
             m = []
             for name, ft in fields:
                 m.append(OD([(name, self.member(ft))]))
-            if m or self.pres.choose([True, False]):
+            if m or self.pres.choose(('empty', id(fields)), [True, False]):
                 n['members'] = m
         return n
 
@@ -477,9 +478,9 @@ class Printer:
             # a mapped integer: barectf 2 may inherit from an alias and add the mapping
             cands = [name for name, a in cfg['aliases'] if a['k'] == 'int' and a['size'] == ft['size'] and not a['signed']
                      and a['align'] == ft['align'] and a['base'] == ft['base']]
-            if cands and self.pres.choose([True, False]):
-                name = self.pres.choose(cands)
-                self.pres.counts['inherit-alias-plus-mapping'] += 1
+            if cands and self.pres.choose(('mapped?', id(ft)), [True, False]):
+                name = self.pres.choose(('mapped', id(ft)), cands)
+                self.pres.count('inherit-alias-plus-mapping')
                 if self.v2:
                     return OD([(self.sp('$inherit', 'inherit'), name),
                                ('property-mappings', [OD([('type', 'clock'), ('name', ft['clock']), ('property', 'value')])])])
@@ -487,32 +488,32 @@ class Printer:
             return None
         # exact user alias
         cands = [name for name, a in cfg['aliases'] if a == ft]
-        if cands and self.pres.choose([True, True, False]):
-            self.pres.counts['user-alias'] += 1
-            return self.pres.choose(cands)
+        if cands and self.pres.choose(('alias?', id(ft)), [True, True, False]):
+            self.pres.count('user-alias')
+            return self.pres.choose(('alias', id(ft)), cands)
         if k == 'int':
             # inheritance from a user alias of the same kind with overrides
             cands = [(name, a) for name, a in cfg['aliases'] if a['k'] == 'int']
-            if cands and self.pres.choose([True, False, False]):
-                name, a = self.pres.choose(cands)
-                self.pres.counts['inherit-user-alias'] += 1
+            if cands and self.pres.choose(('inh?', id(ft)), [True, False, False]):
+                name, a = self.pres.choose(('inh', id(ft)), cands)
+                self.pres.count('inherit-user-alias')
                 return self.inherit_int(name, a, ft)
             if cfg['std_includes'] and ft['base'] is None and (ft['size'], ft['signed'], ft['align']) in STD_INT \
-                    and self.pres.choose([True, True, False]):
-                self.pres.counts['std-alias'] += 1
+                    and self.pres.choose(('std?', id(ft)), [True, True, False]):
+                self.pres.count('std-alias')
                 return STD_INT[(ft['size'], ft['signed'], ft['align'])][0 if self.v2 else 1]
-            if cfg['std_includes'] and ft['size'] in (8, 16, 32, 64) and self.pres.choose([True, False, False, False]):
-                self.pres.counts['inherit-std-alias'] += 1
+            if cfg['std_includes'] and ft['size'] in (8, 16, 32, 64) and self.pres.choose(('inhstd?', id(ft)), [True, False, False, False]):
+                self.pres.count('inherit-std-alias')
                 a = {'k': 'int', 'size': ft['size'], 'signed': False, 'align': ft['size'], 'base': None}
                 return self.inherit_int('uint%d' % ft['size'], a, ft)
         if k == 'float' and cfg['std_includes'] and (ft['size'], ft['align']) in STD_FLOAT:
             names = STD_FLOAT[(ft['size'], ft['align'])]
-            if ft['align'] == ft['size'] and self.pres.choose([True, True, False]):
-                self.pres.counts['std-alias'] += 1
+            if ft['align'] == ft['size'] and self.pres.choose(('stdf?', id(ft)), [True, True, False]):
+                self.pres.count('std-alias')
                 return names[0 if self.v2 else 1]
-        if k == 'float' and cfg['std_includes'] and self.pres.choose([True, False, False, False]):
+        if k == 'float' and cfg['std_includes'] and self.pres.choose(('inhstdf?', id(ft)), [True, False, False, False]):
             # barectf 2's stdfloat.yaml only has float/double: other alignments by inheritance
-            self.pres.counts['inherit-std-alias'] += 1
+            self.pres.count('inherit-std-alias')
             base = 'float' if ft['size'] == 32 else 'double'
             n = OD([('$inherit', base)])
             n['align' if self.v2 else 'alignment'] = ft['align']      # None -> `null`: back to the default
@@ -520,9 +521,9 @@ class Printer:
         if k == 'struct':
             cands = [(name, a) for name, a in cfg['aliases'] if a['k'] == 'struct' and a['min_align'] == ft['min_align']
                      and ft['fields'][:len(a['fields'])] == a['fields'] and len(ft['fields']) > len(a['fields'])]
-            if cands and self.pres.choose([True, False]):
-                name, a = self.pres.choose(cands)
-                self.pres.counts['inherit-struct-alias'] += 1
+            if cands and self.pres.choose(('inhs?', id(ft)), [True, False]):
+                name, a = self.pres.choose(('inhs', id(ft)), cands)
+                self.pres.count('inherit-struct-alias')
                 n = OD([('$inherit', name)])
                 rest = ft['fields'][len(a['fields']):]
                 if self.v2:
@@ -533,6 +534,9 @@ class Printer:
         return None
 
     def inherit_int(self, name, a, ft):
+        if not self.v2 and a['signed'] != ft['signed']:
+            # barectf 3: an inheriting field type cannot change its class (signedness): written in full
+            return self.int_node(ft)
         n = OD([(self.sp('$inherit', 'inherit') if self.v2 else '$inherit', name)])
         if self.v2:
             if a['size'] != ft['size']:
@@ -612,7 +616,8 @@ def print_v2(cfg, pres, srng, order_rng):
             ta[name] = P.ft(ft, allow_alias=False)
         meta['type-aliases'] = ta
     if cfg['log_levels'] is not None:
-        meta[srng.choice(['$log-levels', 'log-levels'])] = copy.deepcopy(cfg['log_levels'])
+        # lttng-ust-log-levels.yaml of include/2 uses `$log-levels`; the two spellings cannot be mixed
+        meta['$log-levels' if cfg['ll_include'] else srng.choice(['$log-levels', 'log-levels'])] = copy.deepcopy(cfg['log_levels'])
     if cfg['env'] is not None:
         meta['env'] = copy.deepcopy(cfg['env'])
     if cfg['clocks']:
@@ -770,15 +775,8 @@ def both(cfg, rng):
     import random
     pres = Pres(random.Random(rng.getrandbits(64)), cfg)
     t2 = print_v2(cfg, pres, random.Random(rng.getrandbits(64)), random.Random(rng.getrandbits(64)))
-    pres.rewind()
-    # the twin replays the alias / inheritance decisions of the barectf 2 printing by position; when
-    # the two printers do not ask the same questions the replay runs out of step -> redo inline
-    try:
-        t3 = print_v3(cfg, pres, random.Random(rng.getrandbits(64)))
-        if pres.pos != len(pres.log):
-            raise IndexError
-    except (IndexError, TypeError, KeyError, ValueError):
-        raise
+    pres.counting = False
+    t3 = print_v3(cfg, pres, random.Random(rng.getrandbits(64)))
     return t2, t3, pres.counts
 
 
